@@ -9,12 +9,12 @@ git -C /repo archive $BASE | tar -x -C $S
 cd $S
 cp $M/demo_test.go $PKG/zz_demo_test.go
 DEMO=$PKG/zz_demo_test.go
-go test -vet=off -count=1 -run "$PAT" ./$PKG/ > $S.c.log 2>&1; c=$?
+go test $SEEDTESTFLAGS -vet=off -count=1 -run "$PAT" ./$PKG/ > $S.c.log 2>&1; c=$?
 rm -f $DEMO
 patch -p1 -s < $M/patch.diff || { echo "patch failed"; exit 2; }
 go build ./... > $S.a.log 2>&1 && go test -vet=off -count=1 ./... >> $S.a.log 2>&1; a=$?
 cp $M/demo_test.go $PKG/zz_demo_test.go
-go test -vet=off -count=1 -run "$PAT" ./$PKG/ > $S.b.log 2>&1; b=$?
+go test $SEEDTESTFLAGS -vet=off -count=1 -run "$PAT" ./$PKG/ > $S.b.log 2>&1; b=$?
 cd /verif
 echo "$NAME: (a) suite-with-patch rc=$a  (b) demo-with-patch rc=$b (want !=0)  (c) demo-without-patch rc=$c (want 0)"
 if [ $a -eq 0 ] && [ $b -ne 0 ] && [ $c -eq 0 ]; then
